@@ -12,7 +12,7 @@ from vf.gen.build import build
 
 HIST = GL.Profile(max_surfs=5, shapes=['standard', 'standard', 'even_asphere'], allow_mirror=False, keep_edges=True,
                   rho_min=3.0, steep_prob=0.0, ap_types=['EPD', 'imageFNO'], max_field_deg=8.0, allow_vignetting=True,
-                  max_n=2.0, zero_thickness=False, allow_coatings=True, allow_apertures=False)
+                  max_n=2.0, zero_thickness=False, allow_coatings=True, allow_apertures=False, unsorted_fields=True)
 
 f = st.floats
 sel = st.integers(0, 1000)
